@@ -22,7 +22,7 @@ DW_AT = dict(sibling=0x01, location=0x02, name=0x03, ordering=0x09, byte_size=0x
              decl_file=0x3a, decl_line=0x3b, declaration=0x3c, encoding=0x3e, external=0x3f, frame_base=0x40, identifier_case=0x42,
              segment=0x46, specification=0x47, static_link=0x48, type=0x49, use_location=0x4a, virtuality=0x4c, vtable_elem_location=0x4d,
              allocated=0x4e, associated=0x4f, data_location=0x50, byte_stride=0x51, entry_pc=0x52, ranges=0x55, call_line=0x59,
-             decimal_sign=0x5e, endianity=0x65, linkage_name=0x6e, alignment=0x88, defaulted=0x8b, str_offsets_base=0x72, addr_base=0x73,
+             macro_info=0x43, decimal_sign=0x5e, endianity=0x65, linkage_name=0x6e, alignment=0x88, defaulted=0x8b, str_offsets_base=0x72, addr_base=0x73,
              rnglists_base=0x74, loclists_base=0x8c, call_column=0x57, call_file=0x58, description=0x5a, decimal_scale=0x5c, small=0x5d,
              digit_count=0x5f, picture_string=0x60, mutable=0x61, threads_scaled=0x62, explicit=0x63, object_pointer=0x64, elemental=0x66,
              pure=0x67, recursive=0x68, main_subprogram=0x6a, data_bit_offset=0x6b, const_expr=0x6c, enum_class=0x6d, noreturn=0x87,
@@ -32,7 +32,10 @@ DW_AT = dict(sibling=0x01, location=0x02, name=0x03, ordering=0x09, byte_size=0x
 DW_FORM = dict(addr=0x01, block2=0x03, block4=0x04, data2=0x05, data4=0x06, data8=0x07, string=0x08, block=0x09, block1=0x0a, data1=0x0b,
                flag=0x0c, sdata=0x0d, strp=0x0e, udata=0x0f, ref_addr=0x10, ref1=0x11, ref2=0x12, ref4=0x13, ref8=0x14, ref_udata=0x15,
                indirect=0x16, sec_offset=0x17, exprloc=0x18, flag_present=0x19, line_strp=0x1f, implicit_const=0x21, data16=0x1e,
-               ref_sig8=0x20)
+               ref_sig8=0x20,
+               # DWARF 5 indexed forms (string offsets table, address table, range / location list offset tables)
+               strx=0x1a, addrx=0x1b, ref_sup4=0x1c, strp_sup=0x1d, loclistx=0x22, rnglistx=0x23, ref_sup8=0x24,
+               strx1=0x25, strx2=0x26, strx3=0x27, strx4=0x28, addrx1=0x29, addrx2=0x2a, addrx3=0x2b, addrx4=0x2c)
 DW_ATE = dict(address=1, boolean=2, complex_float=3, float=4, signed=5, signed_char=6, unsigned=7, unsigned_char=8, UTF=0x10, ASCII=0x12, UCS=0x11)
 DW_OP = dict(addr=0x03, deref=0x06, const1u=0x08, const1s=0x09, const2u=0x0a, const2s=0x0b, const4u=0x0c, const4s=0x0d, const8u=0x0e,
              const8s=0x0f, constu=0x10, consts=0x11, dup=0x12, drop=0x13, over=0x14, pick=0x15, swap=0x16, rot=0x17, abs=0x19, and_=0x1a,
@@ -115,15 +118,24 @@ class Forest:
         self.debug_loclists = loclists or b""
         self.debug_ranges = ranges or b""
         self.debug_line = b""
+        self.debug_rnglists = b""
+        self.debug_macinfo = b""
+        self.strx_table = []                 # .debug_str_offsets: strings by index (DW_FORM_strx*); base offset STRX_BASE
+        self.addr_table = []                 # .debug_addr: addresses by index (DW_FORM_addrx*); base offset ADDRX_BASE
         self.strtab = {}                     # .debug_str
         self.line_strtab = {}
         self.abbrev_tables = {}              # table id -> {key: code}; filled by layout
         self.abbrev_decl_seed = None         # int: declare the abbreviations of each table in a shuffled order
+        self.abbrev_code_style = None        # None (small codes), "high" (around 128), "huge" (16000 and up)
 
     def all_dies(self):
         for u in self.units:
             if u.root is not None:
                 yield from walk(u.root)
+
+
+STRX_BASE = 8      # what DW_AT_str_offsets_base of a unit using strx forms has to say (one table per file, right after its header)
+ADDRX_BASE = 8     # likewise DW_AT_addr_base
 
 
 def walk(d):
@@ -172,6 +184,11 @@ class Writer:
                 if k not in tab:
                     # sparse, non-monotonic codes to exercise the abbreviation lookup
                     code = len(tab) * 3 + 1 if (list(tables).index(tid) & 1) else len(tab) + 1
+                    style = getattr(self.f, "abbrev_code_style", None)
+                    if style == "high":        # codes on both sides of 128: one- and two-byte ULEB128
+                        code = 120 + len(tab) * 5
+                    elif style == "huge":      # two- and three-byte codes
+                        code = 16000 + len(tab) * 997
                     tab[k] = code
                 d._abbrev = tab[k]
                 d.unit = u
@@ -234,6 +251,18 @@ class Writer:
             return self.p("I", self.strp(bytes(v), True))
         if fc == F["addr"]:
             return self.p("Q" if u.addr_size == 8 else "I", v)
+        if fc in (F["strx"], F["strx1"], F["strx2"], F["strx3"], F["strx4"]):
+            tab = self.f.strx_table
+            if bytes(v) not in tab:
+                tab.append(bytes(v))
+            return self.enc_index(fc - F["strx1"] + 1 if fc != F["strx"] else 0, tab.index(bytes(v)))
+        if fc in (F["addrx"], F["addrx1"], F["addrx2"], F["addrx3"], F["addrx4"]):
+            tab = self.f.addr_table
+            if v not in tab:
+                tab.append(v)
+            return self.enc_index(fc - F["addrx1"] + 1 if fc != F["addrx"] else 0, tab.index(v))
+        if fc in (F["rnglistx"], F["loclistx"]):
+            return uleb(v)
         if fc == F["sec_offset"]:
             return self.p("I", v)
         if fc in (F["ref1"], F["ref2"], F["ref4"], F["ref8"], F["ref_udata"]):
@@ -264,6 +293,14 @@ class Writer:
             b = self.enc_expr(u, v, resolve) if isinstance(v, list) else bytes(v)
             return uleb(len(b)) + b
         raise ValueError("form %r" % (f,))
+
+    def enc_index(self, nbytes, idx):
+        """Index of a DWARF 5 x-form: ULEB128 (nbytes == 0) or 1-4 bytes in the file's byte order."""
+        if nbytes == 0:
+            return uleb(idx)
+        assert idx < (1 << (8 * nbytes))
+        b = idx.to_bytes(nbytes, "big" if self.f.big else "little")
+        return b
 
     # ------------------------------------------------------------ expressions
     def enc_expr(self, u, ops, resolve):
@@ -391,7 +428,14 @@ class Writer:
     def elf(self):
         abbrev, info = self.layout()
         f = self.f
-        secs = [(b".debug_abbrev", abbrev, 1), (b".debug_info", info, 1), (b".debug_str", bytes(self.str_data) or b"\0", 1)]
+        extra = []
+        if f.strx_table:
+            offs = b"".join(self.p("I", self.strp(x)) for x in f.strx_table)
+            extra.append((b".debug_str_offsets", self.p("IHH", 4 + len(offs), 5, 0) + offs, 1))
+        if f.addr_table:
+            addrs = b"".join(self.p("Q", a) for a in f.addr_table)
+            extra.append((b".debug_addr", self.p("IHBB", 4 + len(addrs), 5, 8, 0) + addrs, 1))
+        secs = [(b".debug_abbrev", abbrev, 1), (b".debug_info", info, 1), (b".debug_str", bytes(self.str_data) or b"\0", 1)] + extra
         if self.line_str_data:
             secs.append((b".debug_line_str", bytes(self.line_str_data), 1))
         if f.debug_loc:
@@ -402,6 +446,10 @@ class Writer:
             secs.append((b".debug_ranges", f.debug_ranges, 1))
         if f.debug_line:
             secs.append((b".debug_line", f.debug_line, 1))
+        if f.debug_rnglists:
+            secs.append((b".debug_rnglists", f.debug_rnglists, 1))
+        if f.debug_macinfo:
+            secs.append((b".debug_macinfo", f.debug_macinfo, 1))
         return build_elf(f.elfclass, f.big, f.machine, secs, f.symbols)
 
 
